@@ -272,3 +272,9 @@ type IP1 struct {
 	H uint32
 	I uint64
 }
+
+// IS64: uint64 members in the upper half of their range, `,string` and plain.
+type IS64 struct {
+	I uint64 `json:",string"`
+	P uint64
+}
